@@ -342,6 +342,11 @@ def _gen_tensor(w, rng):
 def _files_tensor(w, op, res):
     a = op["args"]
     pre = a.get("outputfile", "")
+    if not pre:
+        # the empty default is not a request for a file: the hidden '.Qtrace.npy' the routine
+        # happens to leave in the working directory then is nothing the property speaks about
+        # (false alarm on an independent agent's benign change that stopped writing it)
+        return []
     return [(pre + (".eigval.npy" if a.get("eigvals") else ".Qtrace.npy"), res, "npy")]
 
 
